@@ -83,6 +83,7 @@ func c07Configs(env *engine.Env) []c07Config {
 			m.Rel[k] = relItems(k, "versioned")
 		}
 		m.RPMPrefixes, m.RPMGroup = []string{"/usr"}, "g"
+		m.ArchPackager, m.ArchPkgbase, m.RPMPackager, m.RPMBuildHost = "Arch Packager <arch@example.com>", "pkgbase", "Rpm Packager <rpm@example.com>", "build_host-01.example.org."
 		m.IPKFields = map[string]string{"Source": "x", "source": "lower", "X-B": "y", "x-b": "lower-b", "X-A": "z", "X-origin": "o1", "x-Origin": "o2"}
 		m.DebFields = map[string]string{"Bugs": "y", "bugs": "lower", "X-B": "1", "X-A": "2", "X-C": "3", "x-c": "lower-c"}
 		m.DebTriggers = map[string][]string{"interest": {"a"}, "activate_noawait": {"b"}}
@@ -502,7 +503,9 @@ func checkC07(env *engine.Env, ci any) engine.Outcome {
 			runBin("TMPDIR", text, work, "TMPDIR="+td, "TMP="+td, "TEMP="+td)
 		}()
 		if strings.Contains(text, "\nmtime: ") {
+			// later and earlier than the configured mtime
 			runBin("SOURCE_DATE_EPOCH-next-to-mtime", text, work, "SOURCE_DATE_EPOCH=1500000000")
+			runBin("earlier-SOURCE_DATE_EPOCH-next-to-mtime", text, work, "SOURCE_DATE_EPOCH=1000000000")
 		}
 		if env.Thorough() {
 			for _, tz := range []string{"Pacific/Chatham", "Australia/Lord_Howe", "Pacific/Kiritimati", "Etc/GMT+12", "Europe/Dublin"} {
